@@ -15,7 +15,7 @@ def run(ck):
     if q:
         cfgs = [('{"a","b","c"}', 2)]
     else:
-        cfgs = [('{"a","b","c"}', 3)]
+        cfgs = [('{"a","b","c"}', 3), ('{"a","b","c","d"}', 1)]
     for scripts, mc in cfgs:
         cfg = ("CONSTANTS Scripts = %s\nMissing = \"zz\"\nMaxCalls = %d\nSPECIFICATION Spec\n%s Emit\n"
                "CHECK_DEADLOCK FALSE\n") % (scripts, mc, INV)
@@ -44,7 +44,8 @@ def run(ck):
                 "SPECIFICATION TraceSpec\n%s\nCONSTRAINT HighWater\nPOSTCONDITION Accepted\nCHECK_DEADLOCK FALSE\n") % INV
         total += validate_traces(ck, "TraceLoader", tcfg, tr, "loader-%d" % k, lambda rec: rec["ev"] == "config")
     ck.cov["rule"] = ("S->I: every (script set, visit order) state explored by TLC (all sets of 3 scripts, <=2 (quick) / "
-                      "<=3 (thorough) use calls each, valid/unparsable/check-failing, missing targets) is loaded through "
+                      "<=3 (thorough) use calls each, and in the thorough tier all sets of 4 scripts with <=1 call each; "
+                      "valid/unparsable/check-failing, missing targets) is loaded through "
                       "engine.ParseScript with the visit order observed via the hook; distinct_nontrivial counts sets with "
                       ">=2 link roots. I->S: hook traces of random sets of 4-6 scripts validated by TLC against TraceLoader.")
     ck.assumptions += ["Go map iteration order is observed through the visit hook, not assumed",
